@@ -18,6 +18,8 @@ The claim "no two nodes overlap" is FALSE without a hypothesis on the node exten
 direction (known finding C14-tree-rank-distance): `tall_root_overlaps_child`.
 -/
 import AdaptaVerif.Lemmas.TreeLayoutSym
+import AdaptaVerif.Lemmas.TreeLayoutPerm
+import AdaptaVerif.Lemmas.TreeLayoutRot
 namespace AdaptaVerif.Props.C19Layout
 open AdaptaVerif.Model.TreeLayout AdaptaVerif.Lemmas.TreeLayout
 
@@ -150,6 +152,21 @@ theorem symmetricLayout_disjoint_strict (cfg : Cfg) (convex : Bool) (id : Nat) (
   exact (nodes_pairwise_strict hgap (gstep_abs cfg) hrs hP _ 0 hok.lv hok.grow).imp
     (fun h => disjointBoxes_of (d := cfg.dir) h)
 
+/-! ### (3b) completeness: every node of the tree is placed exactly once -/
+
+/-- The ordering as coded (classes by `computeIsomString`, class sort, odd class to the front) returns every
+    c-tree index exactly once, for any list of c-tree keys — so no c-tree is dropped or placed twice. -/
+theorem isomOrder_is_permutation (convex : Bool) (ks : List Key) :
+    (isomOrder convex ks).1.Perm (List.range ks.length) := isomOrder_perm convex ks
+
+/-- The output of `symmetricLayout` contains exactly the nodes of the input tree (id and size), each once:
+    the labels of the output nodes are a permutation of the labels of the tree in preorder.  Together with
+    `symmetricLayout_no_overlap` (which speaks about all pairs of positions of the output list) this makes
+    the no-overlap statement a statement about all pairs of distinct nodes of the input. -/
+theorem symmetricLayout_nodes_perm (cfg : Cfg) (convex : Bool) (id : Nat) (w h : Rat) (kids : Forest) :
+    ((symmetricLayout cfg convex id w h kids).nodes.map label).Perm ((id, w, h) :: forestLabels kids) :=
+  layoutWith_labels isomOrder_perm cfg convex id w h kids
+
 /-! ### (4) the hypothesis on the extents is necessary (known finding C14-tree-rank-distance) -/
 
 /-- the witness: a 10×100 root with one 10×10 child, growth SOUTH, nodeSep 5, rankSep 20 -/
@@ -178,6 +195,55 @@ theorem translate_additive (d : Dir) (u v : Pt) (t : Lay) :
 /-- `flip` and `translate` commute up to mirroring the vector -/
 theorem translate_equivariant (d : Dir) (v : Pt) (t : Lay) :
     (t.translate d v).flip d = (t.flip d).translate d (flipPt d v) := Lay.flip_translate d v t
+
+/-- anisotropic example tree used below -/
+def exKidsA : Forest :=
+  .cons 1 4 10 .nil (.cons 2 10 6 (.cons 4 6 2 .nil .nil) (.cons 3 12 10 .nil .nil))
+
+/-! ### (6) the four growth directions are images of each other
+
+`Frame.mapLay F` applies the point map `F.φ` to every centre and the size map `F.σ` to every node size and
+leaves the rank bounds, `m_lb`, `m_ub` unchanged.  These equalities hold for the model as coded; a change
+that treats one direction differently (seeded C14-2: the transverse half extent for EAST/WEST) breaks the
+exact tie on the classes with EAST/WEST growth and non-square nodes. -/
+
+/-- NORTH layout = SOUTH layout mirrored in the x-axis (`(x, y) ↦ (x, −y)`), any ordering function. -/
+theorem layout_north_eq_mirror_south (ord : Order) (ns rs : Rat) (convex : Bool) (id : Nat) (w h : Rat)
+    (kids : Forest) :
+    layoutWith ord ⟨.north, ns, rs⟩ convex id w h kids =
+      southNorth.mapLay (layoutWith ord ⟨.south, ns, rs⟩ convex id w h kids) := by
+  have := southNorth.layoutWith_map ord ns rs convex id w h kids
+  rw [southNorth_mapForest] at this
+  exact this
+
+/-- WEST layout = EAST layout mirrored in the y-axis (`(x, y) ↦ (−x, y)`). -/
+theorem layout_west_eq_mirror_east (ord : Order) (ns rs : Rat) (convex : Bool) (id : Nat) (w h : Rat)
+    (kids : Forest) :
+    layoutWith ord ⟨.west, ns, rs⟩ convex id w h kids =
+      eastWest.mapLay (layoutWith ord ⟨.east, ns, rs⟩ convex id w h kids) := by
+  have := eastWest.layoutWith_map ord ns rs convex id w h kids
+  rw [eastWest_mapForest] at this
+  exact this
+
+/-- EAST layout of the tree with every node's width and height exchanged = transpose (`(x, y) ↦ (y, x)`) of
+    the SOUTH layout of the tree. -/
+theorem layout_east_eq_transpose_south (ord : Order) (ns rs : Rat) (convex : Bool) (id : Nat) (w h : Rat)
+    (kids : Forest) :
+    layoutWith ord ⟨.east, ns, rs⟩ convex id h w (southEast.mapForest kids) =
+      southEast.mapLay (layoutWith ord ⟨.south, ns, rs⟩ convex id w h kids) :=
+  southEast.layoutWith_map ord ns rs convex id w h kids
+
+/-- … in particular for `symmetricLayout` as coded -/
+theorem symmetricLayout_east_eq_transpose_south (ns rs : Rat) (convex : Bool) (id : Nat) (w h : Rat)
+    (kids : Forest) :
+    symmetricLayout ⟨.east, ns, rs⟩ convex id h w (southEast.mapForest kids) =
+      southEast.mapLay (symmetricLayout ⟨.south, ns, rs⟩ convex id w h kids) :=
+  southEast.layoutWith_map isomOrder ns rs convex id w h kids
+
+/-- the transposition really exchanges the coordinates (closed instance, 5 nodes, anisotropic sizes) -/
+example : (symmetricLayout ⟨.east, 5, 20⟩ true 0 8 10 (southEast.mapForest exKidsA)).nodes.map (fun n => (n.id, n.c.x, n.c.y))
+    = (symmetricLayout ⟨.south, 5, 20⟩ true 0 10 8 exKidsA).nodes.map (fun n => (n.id, n.c.y, n.c.x)) := by
+  decide +kernel
 
 /-! ### non-vacuity -/
 
